@@ -64,6 +64,12 @@ type ledGen struct {
 	defined map[string]*gTx
 	orphanT []*gTx // transactions of blocks that were reorganised away (candidates for re-mining)
 	maxAddr int
+	// C09 domain (see gen_led_c09.go): pool txs that were once invalid on the node's tip are not delivered
+	// again; foreign coinbase outputs are spent only when buried deeper than any reorganisation reaches
+	dead     map[string]bool
+	maxReorg int
+	// C01 (see gen_led_c01.go): the chain the wallet has synced, mirrored to count notification classes
+	synced []string
 }
 
 func (l *ledGen) op(class, f string, a ...interface{}) { l.g.Op(class, f, a...) }
@@ -72,7 +78,7 @@ func (l *ledGen) tip() *gBlock { return l.blocks[l.chain[len(l.chain)-1]] }
 
 func newLedGen(g *Gen, eng string) *ledGen {
 	l := &ledGen{g: g, r: g.Rng, eng: eng, cbm: 4, minFr: 3, addrs: map[string][]string{}, owner: map[string]string{},
-		blocks: map[string]*gBlock{}, defined: map[string]*gTx{}, maxAddr: 6}
+		blocks: map[string]*gBlock{}, defined: map[string]*gTx{}, maxAddr: 6, dead: map[string]bool{}, maxReorg: 8}
 	l.blocks["G"] = &gBlock{name: "G", height: 0, utxo: map[string]gCoin{}}
 	l.chain = []string{"G"}
 	return l
@@ -197,11 +203,23 @@ func (l *ledGen) makeTx(ins []gCoin, kind string) *gTx {
 		if i < n-1 {
 			amt = 1 + l.r.Int63n(rest)
 		}
-		addOut(fmt.Sprintf("%s:%d", l.anyDest(), amt))
+		dest := ""
+		if kind == "foreign" { // pays strangers only
+			dest = l.stranger()
+		} else {
+			dest = l.anyDest()
+		}
+		addOut(fmt.Sprintf("%s:%d", dest, amt))
 		rest -= amt
 	}
 	if len(t.outs) == 0 {
 		addOut(fmt.Sprintf("%s:%d", l.stranger(), int64(0)))
+	}
+	if (kind == "stake" || kind == "bind") && len(t.outs) > 1 && l.r.Intn(2) == 0 {
+		// the deposit is not always output 0
+		n := len(t.outs) - 1
+		t.outs[0], t.outs[n] = t.outs[n], t.outs[0]
+		l.g.Stats["tx-deposit-vout>0"]++
 	}
 	t.line = fmt.Sprintf("tx %s %d %s %s", t.name, l.nTx, strings.Join(inSpecs, ";"), strings.Join(t.outs, ";"))
 	return t
@@ -257,7 +275,7 @@ func applyTx(u map[string]gCoin, t *gTx, h int) bool {
 func (l *ledGen) pickCoins(u map[string]gCoin, h int, wantCls string) []gCoin {
 	var cand []gCoin
 	for _, c := range sortedCoins(u) {
-		if !l.spendableIn(c, h) || c.amt == 0 {
+		if !l.spendableIn(c, h) || c.amt == 0 || l.reorgReachable(c, h) {
 			continue
 		}
 		if wantCls != "" && c.cls != wantCls {
@@ -300,6 +318,9 @@ func (l *ledGen) buildBlock(parent string) *gBlock {
 	for i := 0; i < ncb; i++ {
 		cb.outs = append(cb.outs, fmt.Sprintf("%s:%d", l.anyDest(), (100+l.r.Int63n(900))*1000000))
 	}
+	if spec := l.cbDeposit(); spec != "" { // C10/C01: the miner stakes / binds straight from the coinbase
+		cb.outs = append(cb.outs, spec)
+	}
 	cb.line = fmt.Sprintf("tx %s %d cb %s", cb.name, l.nTx, strings.Join(cb.outs, ";"))
 	l.define(cb)
 	applyTx(b.utxo, cb, b.height)
@@ -317,12 +338,22 @@ func (l *ledGen) buildBlock(parent string) *gBlock {
 		case k < 3 && len(l.pool) > 0: // double-spend a pending tx
 			t := l.pool[l.r.Intn(len(l.pool))]
 			c := t.ins[l.r.Intn(len(t.ins))]
+			if l.r.Intn(2) == 0 { // prefer a conflict through a coin that is not a wallet's
+				if ft, fc, ok := l.foreignSpend(b); ok {
+					t, c = ft, fc
+				}
+			}
 			if _, ok := b.utxo[c.key()]; ok && l.spendableIn(c, b.height) {
-				ds := l.makeTx([]gCoin{c}, "")
+				kind := ""
+				if l.r.Intn(3) == 0 || (l.foreign(c) && l.r.Intn(2) == 0) {
+					kind = "foreign"
+				}
+				ds := l.makeTx([]gCoin{c}, kind)
 				l.define(ds)
 				if applyTx(b.utxo, ds, b.height) {
 					b.txs = append(b.txs, ds)
 					l.g.Stats["blk-doublespends-pending"]++
+					l.countDoubleSpend(t, c, ds)
 				}
 			}
 		case k < 5 && len(l.orphanT) > 0: // re-mine a rolled-back tx
@@ -393,6 +424,7 @@ func (l *ledGen) buildBlock(parent string) *gBlock {
 	var names []string
 	for _, t := range b.txs {
 		names = append(names, t.name)
+		l.countBlockTx(t)
 	}
 	// txs confirmed here leave the pool
 	var np []*gTx
@@ -418,6 +450,7 @@ func (l *ledGen) extend() {
 	l.op("submit", "submit %s", b.name)
 	l.chain = append(l.chain, b.name)
 	l.queue = append(l.queue, b.name)
+	l.markDead()
 }
 
 func (l *ledGen) reorgTo(depth, extra int) {
@@ -430,9 +463,11 @@ func (l *ledGen) reorgTo(depth, extra int) {
 	}
 	for i := 0; i < depth; i++ {
 		ob := l.tip()
+		l.countUndone(ob)
 		for _, t := range ob.txs {
 			if !t.cb {
 				l.orphanT = append(l.orphanT, t)
+				l.g.Stats["reorg-unconfirms-tx"]++
 			}
 		}
 		l.op("detach", "detach")
@@ -444,6 +479,7 @@ func (l *ledGen) reorgTo(depth, extra int) {
 		l.op("submit", "submit %s", b.name)
 		l.chain = append(l.chain, b.name)
 		l.queue = append(l.queue, b.name)
+		l.markDead()
 	}
 	l.g.Stats[fmt.Sprintf("reorg-depth-%d", depth)]++
 	if n >= 2 {
@@ -463,28 +499,41 @@ func (l *ledGen) processOne() {
 		l.g.Stats["notify-dropped"]++
 		return
 	}
+	l.noteNotify(b)
 	l.op("notify", "notify %s", b)
 }
 
 // recv delivers an unconfirmed transaction built on the node's current tip view.
 func (l *ledGen) recv() {
+	if l.g.Prop != "C09" && !l.walletOnBestChain() { // C01/C10 streams (irregular notifications): no deliveries while the wallet sits on a stale branch
+		return
+	}
 	u := map[string]gCoin{}
 	for k, v := range l.tip().utxo {
 		u[k] = v
 	}
-	// pending chain: outputs of pool txs are spendable by further pending txs
+	// pending chain: outputs of pool txs are spendable by further pending txs.
+	// `live` = the pool txs that are still valid on the node's tip (the others were double-spent or
+	// orphaned on this branch: a node validates what it relays, so they are not delivered again)
+	var live []*gTx
 	for _, p := range l.pool {
-		applyTx(u, p, l.tip().height+1)
+		if applyTx(u, p, l.tip().height+1) && !l.dead[p.name] {
+			live = append(live, p)
+		}
 	}
 	switch k := l.r.Intn(10); {
-	case k == 0 && len(l.pool) > 0: // duplicate delivery
-		t := l.pool[l.r.Intn(len(l.pool))]
+	case k == 0 && len(live) > 0: // duplicate delivery
+		t := live[l.r.Intn(len(live))]
 		l.op("recvtx-dup", "recvtx %s", t.name)
-	case k == 1 && len(l.pool) > 0: // conflicting pending tx (same input)
-		t := l.pool[l.r.Intn(len(l.pool))]
+	case k == 1 && len(live) > 0: // conflicting pending tx (same input)
+		t := live[l.r.Intn(len(live))]
 		c := t.ins[l.r.Intn(len(t.ins))]
 		ds := l.makeTx([]gCoin{c}, "")
 		l.define(ds)
+		l.pool = append(l.pool, ds) // a sibling of t: it may confirm, be double-spent or lose its sibling
+		if len(t.ins) > 1 {
+			l.g.Stats["recvtx-conflict-sibling"]++
+		}
 		l.op("recvtx-conflict", "recvtx %s", ds.name)
 	default:
 		ins := l.pickCoins(u, l.tip().height+1, "")
@@ -498,6 +547,7 @@ func (l *ledGen) recv() {
 		t := l.makeTx(ins, kind)
 		l.define(t)
 		l.pool = append(l.pool, t)
+		l.countRecv(t)
 		l.op("recvtx", "recvtx %s", t.name)
 	}
 }
@@ -522,6 +572,14 @@ func (l *ledGen) observe(full bool) {
 	}
 	if full {
 		l.op("q-pend", "pend")
+		if l.g.Prop == "C10" || l.g.Prop == "C01" { // raw dump of the mined deposit history
+			l.op("q-glog", "glog")
+		}
+		if l.g.Prop == "C09" { // raw dumps of the pending stores
+			l.op("q-pins", "pins")
+			l.op("q-pcred", "pcred")
+			l.op("q-pgame", "pgame")
+		}
 	}
 	// withdrawal / spend drafts built by the wallet: the sequence value of the input (C10)
 	if len(l.queue) == 0 && l.r.Intn(3) == 0 {
@@ -576,6 +634,10 @@ func genLed(g *Gen) {
 				l.recv()
 			case k < 17:
 				l.newAddr(l.wallets[g.Rng.Intn(len(l.wallets))])
+			case k >= 17 && k <= 18 && g.Prop != "C09" && lazy:
+				// restart + catch-up by height, skipped notifications, duplicate notifications
+				// (C09 keeps its volatile seen-set: no restarts there)
+				l.disturb()
 			default:
 				l.processOne()
 			}
